@@ -1595,9 +1595,14 @@ func (v *FV) sliceOp(fr *Frame, st *State, in *ssa.Slice) {
 			hi = v.toIdx(v.val(fr, in.High))
 		}
 		v.oblige("bounds", "", pos, "slice bounds in range", st.reach, fmt.Sprintf("(and (%s %s %s) (%s %s %s) (%s %s %s))", le, v.idxLit(0), lo, le, lo, hi, le, hi, v.idxLit(at.Len())))
-		ref := v.newRef(fr.prefix + in.Name())
 		arr := v.elemArray(at.Elem())
 		l := v.locOf(fr, st, in.X)
+		if l != nil && l.kind == 2 && l.arr == arr {
+			// an array variable: the slice shares its backing store
+			v.setVal(fr, in, fmt.Sprintf("(mk_slice %s %s %s %s)", l.ref, lo, v.isub(hi, lo), v.isub(v.idxLit(at.Len()), lo)))
+			return
+		}
+		ref := v.newRef(fr.prefix + in.Name())
 		v.wr(st.snap, arr, ref, v.load(st, l))
 		v.note("slice of array pointer at %s: backing store copied (aliasing with the array not modelled)", pos)
 		v.setVal(fr, in, fmt.Sprintf("(mk_slice %s %s %s %s)", ref, lo, v.isub(hi, lo), v.isub(v.idxLit(at.Len()), lo)))
